@@ -112,11 +112,13 @@ def real_socket(host='h', port=1):
     import scales.scales_socket as ss
     s = ss.ScalesSocket(host, port)
     s.next_connect, s.connects, s.conns, s.eof_mid = 'ok', 0, [], False
+    s.next_buffered = []          # (outcome, data) of the first reads on the next connection: already there
     s._resolveAddr = lambda: [(2, 1, 6, '', (host, port))]
 
     def factory(family, type_):
         c = StepConn(s.eof_mid)
         c.owner = s
+        c.buffered, s.next_buffered = list(s.next_buffered), []
         return c
     ss.gsocket = factory          # one driver at a time per worker process
     return s
